@@ -776,7 +776,12 @@ type BencDecCase struct {
 func genC15d(t *rapid.T) BencDecCase {
 	name := rapid.SampledFrom([]string{"ID", "Error", "NodeAddr", "CompactIPv4NodeInfo", "CompactInfohashes"}).Draw(t, "decoder")
 	var data []byte
-	switch rapid.IntRange(0, 3).Draw(t, "shape") {
+	switch rapid.IntRange(0, 4).Draw(t, "shape") {
+	case 4:
+		// string headers a hand-written length parser may get wrong: signs, leading zeros, blanks, lengths
+		// beyond the payload or beyond every integer width
+		hdr := pick(t, "hdr", "-1", "-6", "-0", "+6", "06", "006", " 6", "6 ", "0x6", "6.0", "", "18446744073709551616", "4294967302", "9223372036854775807", "-9223372036854775808", "2147483654", "7", "5")
+		data = append([]byte(hdr+":"), genBytesN(t, pick(t, "hdr.payload", 0, 5, 6, 7, 18), "hdr.bytes")...)
 	case 0:
 		data = genBytes(t, 0, 40, "raw")
 	case 1:
